@@ -1,6 +1,85 @@
-//! C13 — stub (to be written; see /verif/harness/AUTHORING.md and DESIGN.md §3 C13)
-use vengine::Property;
+//! C13 — SVM solutions satisfy the dual feasibility and KKT conditions they publish.
+//!
+//! Every case is a complete training problem (data, task, kernel, solver settings). linfa-svm fits
+//! it; the oracle (`oracle.rs`) recomputes, in f64 and with its own kernel code, the decision
+//! function `sum_i a_i K(x_i, x) - rho` from the *published* `alpha`/`rho`, and checks
+//!   (1) `weighted_sum`, `predict` (labels / values / Platt probabilities) and `nsupport` against it,
+//!   (2) dual feasibility (box per class weight, equality constraint),
+//!   (3) the KKT conditions within the solver's stopping tolerance when the model says it stopped on
+//!       the threshold,
+//!   (4) termination (a run that hits the iteration cap is counted, not judged).
+//!
+//! Why `KKT_EPS_FACTOR * eps` is a sound slack: the solver stops when m(a) - M(a) < eps with
+//! m = max_{I_up} -y_i G_i, M = min_{I_low} -y_i G_i, and rho is the mean of y_i G_i over the free
+//! variables (or the midpoint of the two bounds). Free variables belong to I_up and I_low, so all
+//! free values lie in an interval shorter than eps that contains rho; every other variable is on
+//! the correct side of that interval up to eps. Each KKT inequality therefore holds within 1*eps in
+//! exact arithmetic; the factor 2 and the drift term cover the incrementally updated gradient.
+
+pub mod case;
+pub mod oracle;
+pub mod run;
+
+use case::{case_strategy, large_strategy, Flavor};
+use vengine::{prop_sub, Property, Tier};
 
 pub fn property() -> Property {
-    Property { id: "C13", rule: "", assumptions: vec![], subs: vec![] }
+    Property {
+        id: "C13",
+        rule: "case = (layout separable|overlap|imbalanced 1:5|duplicated points, n, 1..3 features, kernel linear|Gaussian|polynomial, \
+               task C-SVC with (c+,c-)|nu-SVC|eps-SVR|nu-SVR|one-class, solver eps 1e-3|1e-5, shrinking, f32|f64, 4 fresh points), built from \
+               proptest-drawn gaussian noise and selectors. Non-trivial = the solver reports exit on the threshold and the published solution \
+               has at least one free and at least one bounded support vector; with shrinking additionally iterations > min(#variables, 1000) \
+               so that do_shrinking ran. distinct = distinct canonical JSON of the case",
+        assumptions: vec![
+            "reference decision function sum_i alpha_i K(x_i,x) - rho is computed in f64 with the harness' own kernel code from the published alpha/rho".into(),
+            format!("KKT slack per sample: {} * solver eps (divided by r for nu-SVC) + drift * (sum_j |a_j K_ij| + |rho| + |target|), drift = {:e} (f64) / {:e} (f32)",
+                oracle::KKT_EPS_FACTOR, oracle::DRIFT_F64, oracle::DRIFT_F32),
+            format!("weighted_sum / predict vs own sum: relative {:e} (f64) / {:e} (f32) of sum_j |a_j K(x_j,x)|, plus twice the contribution of coefficients <= 100 eps_mach (weighted_sum may drop them)",
+                oracle::DEC_REL_F64, oracle::DEC_REL_F32),
+            format!("equality constraint: |sum a_i - c| <= {:e} (f64) / {:e} (f32) * (sum |a_i| + largest bound); box: relative {:e} / {:e}",
+                oracle::EQ_REL_F64, oracle::EQ_REL_F32, oracle::BOX_REL_F64, oracle::BOX_REL_F32),
+            "status of a sample (zero / free / bounded) is read off the published coefficient exactly as the solver does (== 0, >= bound); for nu-SVC the bound 1/r is reconstructed as sum|a_i| / (nu n) and coefficients within 1e-9 of it only have to satisfy the weaker 'bounded' condition".into(),
+            format!("nu-SVC runs whose margin r = nu n / sum|a_i| is below {} * solver eps (reduced hulls touch, the published quantities are divided by ~0) are counted, not judged", oracle::NU_MIN_R_OVER_EPS),
+            "nu-SVC is generated only with nu n / 2 <= min(n+, n-) - 1/2 (otherwise the nu-SVC dual has no feasible point); both classes are always present".into(),
+            "nu-SVR: only feasibility, decision-function consistency and 'all free vectors share one |residual|' are asserted".into(),
+            "one-class with nu = 1 (all coefficients at the bound, rho = +inf, as in LIBSVM) is accepted".into(),
+            "polynomial kernels: constant >= 0 and integer degree 1..3 (a negative base with a fractional degree is NaN; negative constants are not positive semi-definite); Gaussian width in {0.05,0.5,5,50}; dense kernels only".into(),
+            "KKT conditions are judged only when Display says the solver exited on the threshold; runs at the iteration cap are counted as not judged".into(),
+            "nsupport = number of coefficients with |a_i| > 100 eps_mach (the definition in the code); the corner of a coefficient within a factor r of that threshold is not targeted".into(),
+            "Platt calibration errors (line search / iteration limit of the calibration) are counted, not judged; probabilities must be monotone within 1e-6 in the model's own decision value".into(),
+            "f32 cases: C <= 10, eps = 1e-3, all numbers of the case exactly representable in f32".into(),
+        ],
+        subs: vec![
+            // heaviest first
+            prop_sub("large_n", 6, 50, |t: Tier| large_strategy(t.pick(250, 600), t.pick(450, 2000)), oracle::check).chunks(6),
+            prop_sub(
+                "shrink",
+                110,
+                1500,
+                |t: Tier| {
+                    case_strategy(Flavor { n_lo: 10, n_hi: t.pick(90, 120), shrinking: true, single: false, c_lo: -100, c_hi: 300 })
+                },
+                oracle::check,
+            )
+            .chunks(16),
+            prop_sub(
+                "noshrink",
+                300,
+                4500,
+                |_t: Tier| case_strategy(Flavor { n_lo: 10, n_hi: 120, shrinking: false, single: false, c_lo: -200, c_hi: 300 }),
+                oracle::check,
+            )
+            .chunks(16)
+            .require(&["task_c_svc", "task_nu_svc", "task_eps_svr", "task_one_class", "has_free_sv", "has_bounded_sv"]),
+            prop_sub(
+                "f32",
+                60,
+                600,
+                |_t: Tier| case_strategy(Flavor { n_lo: 10, n_hi: 60, shrinking: false, single: true, c_lo: -200, c_hi: 100 }),
+                oracle::check,
+            )
+            .chunks(8),
+        ],
+    }
 }
